@@ -86,8 +86,9 @@ func (c Config) Validate() Config {
 		validated.InitialBackoff = MaxInitialBackoff
 	}
 
-	// Clamp BackoffFactor to reasonable range
-	if validated.BackoffFactor < MinBackoffFactor {
+	// Clamp BackoffFactor to reasonable range (written so that NaN, which compares false with
+	// everything, is clamped as well)
+	if !(validated.BackoffFactor >= MinBackoffFactor) {
 		validated.BackoffFactor = MinBackoffFactor
 	} else if validated.BackoffFactor > MaxBackoffFactor {
 		validated.BackoffFactor = MaxBackoffFactor
